@@ -288,6 +288,51 @@ pub fn trand(g: &mut Gen, r: &mut Rng, cfg: &TRandCfg) {
 }
 
 // ------------------------------------------------------------------------------------------------
+// T-mid: many small DEEP histories (5-8 keys, uniform levels 0..nlev, random order, hash requests
+// at random points): the shapes with >= 4 levels and populated high pages that exhaustive
+// T-small cannot reach within the quick budget
+// ------------------------------------------------------------------------------------------------
+
+pub fn tmid(g: &mut Gen, r: &mut Rng, cases: usize) {
+    let n = 3usize;
+    let base = 16u8;
+    for case in 0..cases {
+        let mut r = r.fork(case as u64);
+        let nk = 4 + r.below(5) as usize;
+        let nlev = 3 + r.below(3) as u32;
+        let mut order: Vec<usize> = (0..nk).collect();
+        r.shuffle(&mut order);
+        let kds: Vec<Vec<u8>> = (0..nk).map(|i| digest_for_level(r.below(nlev as u64) as u32, base, n, i as u8 * 2)).collect();
+        g.op(format!("new 0 {base} n={n}"));
+        g.cases += 1;
+        let p_hash = 1 + r.below(3);
+        for (step, &i) in order.iter().enumerate() {
+            g.op(format!("ups 0 {} {} {}", xtok(&[0x20 + i as u8]), xtok(&kds[i]), xtok(&val_digest(1, n))));
+            if r.chance(p_hash, 4) {
+                g.op("hash 0".into());
+                g.note("hash-between");
+            }
+            if step + 1 == order.len() || r.chance(1, 3) {
+                let tr = g.op("trav 0 -".into());
+                g.shape(&tr);
+            }
+        }
+        // an overwrite and a same-value upsert late in the history
+        if r.chance(1, 2) {
+            let i = order[r.below(nk as u64) as usize];
+            g.op(format!("ups 0 {} {} {}", xtok(&[0x20 + i as u8]), xtok(&kds[i]), xtok(&val_digest(1 + r.below(2) as u8, n))));
+        }
+        g.op("hash 0".into());
+        g.op("ser 0".into());
+        let tr = g.op("trav 0 -".into());
+        g.shape(&tr);
+        if case < 2 {
+            g.sample(format!("tmid case {case}: keys={nk} levels<{nlev} order={order:?}"));
+        }
+    }
+}
+
+// ------------------------------------------------------------------------------------------------
 // D-small: all ordered pairs of contents over U keys x all level assignments
 // ------------------------------------------------------------------------------------------------
 
